@@ -58,6 +58,10 @@ def run(ctx, rep) -> None:
         sneg[c] = f'{inv} violated, as required'
     rep.extra['spawning_negative_and_witness_configs'] = sneg
     scs = D.crafted() + D.gen_scenarios(ctx.seed, 200 if ctx.quick else 5000)
+    # leg C: configurations and histories drawn by TLC itself (-simulate on Sim_Spawning) replayed into the real operator
+    tl = D.tlc_scenarios(ctx.seed + 1, 60 if ctx.quick else 600)
+    rep.extra['tlc_generated_daemon_histories'] = len(tl)
+    scs += tl
     # idle-only timers that are stopped after their first run (the F1 stall, fixed in b6c0de9) and other timer stops
     tscs = [s for s in T.gen_scenarios(ctx.seed + 7, 400 if ctx.quick else 4000) if s['delete_at'] is not None][:60 if ctx.quick else 1200]
     with ProcessPoolExecutor(16) as ex:
